@@ -290,4 +290,40 @@ example :
     some (false, [some (.timers0, 2), none, some (.idle, 3), some (.check, 4), some (.timers, 2), none, some (.idle, 3)]) := by
   decide +kernel
 
+/-! ### uv_backend_timeout from inside the idle phase (recorded finding `backend-timeout-inside-idle-phase`) -/
+/-- what the property text asks for: 0 whenever *some idle handle is active* -/
+def backend_timeout_idle_statement : Prop :=
+  ∀ (s : State) (id : Nat), s.closed = false →
+    (getH s id).map (·.kind) = some .idle → (getF s id).map (·.active) = some true →
+    (applyOp s .getBackendTimeout).2 = some 0
+
+/-- FALSE of the code: `uv__run_idle` detaches the list; inside the first idle callback (which stops its own handle)
+    the second idle handle is active but sits in the detached queue, and `uv_backend_timeout()` answers -1
+    (reproduced on the implementation: corpus/C03/backend-timeout-in-idle-phase.txt) -/
+theorem backend_timeout_idle_statement_false : ¬ backend_timeout_idle_statement := by
+  intro h
+  -- the state inside uv__run_idle after the first handle (id 3) was popped, re-appended and stopped itself
+  let s0 := flushWatchers ([Op.init .idle, .init .idle, .start 2 0 0, .start 3 0 0].foldl stepOp (initLoop 0 false []))
+  let s1 := (applyOp { s0 with watcherLocal := [2], idle := [3] } (.stop 3)).1
+  have := h s1 2 (by decide) (by decide) (by decide)
+  revert this
+  decide
+
+/-- the same through the real phase function: the idle callback of h1 (id 3) stops itself and asks -/
+example :
+    let s0 := flushWatchers ([Op.init .idle, .init .idle, .start 2 0 0, .start 3 0 0].foldl stepOp (initLoop 0 false []))
+    let sc : Script := fun key occ _ => if key = .h 3 ∧ occ = 0 then [.stop 3, .getBackendTimeout] else []
+    ((runWatchers sc .idle s0).trace.filterMap (fun e => match e with
+        | .op .getBackendTimeout r => some r | _ => none)) = [some (-1)] := by decide
+
+/-- corrected statement: 0 whenever the *loop's* idle list is non-empty, i.e. outside the idle phase for every active
+    idle handle, inside it for the handles already called (and re-appended) or started during the phase -/
+theorem backend_timeout_idle_corrected (s : State) (hc : s.closed = false) (hi : s.idle ≠ []) :
+    (applyOp s .getBackendTimeout).2 = some 0 := by
+  rw [backend_timeout_api]
+  simp only [hc, Bool.false_eq_true, if_false]
+  split
+  · rfl
+  · rw [timeout_rule]; simp [hi]
+
 end UvModel.Props.C03
